@@ -11,7 +11,7 @@ fn fwd(op: &Op, _ctx: &dyn Context, operands: &mut dyn CoordinateSet) -> usize {
     let n = operands.len();
 
     // Nothing to do?
-    if grids.is_empty() {
+    if grids.is_empty() && use_null_grid {
         return n;
     }
 
@@ -54,7 +54,7 @@ fn inv(op: &Op, _ctx: &dyn Context, operands: &mut dyn CoordinateSet) -> usize {
     let n = operands.len();
 
     // Nothing to do?
-    if grids.is_empty() {
+    if grids.is_empty() && use_null_grid {
         return n;
     }
 
